@@ -5,6 +5,11 @@ import json, subprocess, os
 ROOT = os.path.dirname(os.path.abspath(__file__))
 
 CHECKS = {
+ "C10": dict(
+  technique="exhaustive enumeration of code points and short literals + rapid generation of long / halfway / threshold literals, oracle = exact rational arithmetic (math/big), script-swap metamorphic relation, print read-back",
+  text="Every Unicode scalar value is transliterated (alone and embedded) and classified; every literal of <=4 (quick) / <=6 (thorough) digits with every point position in ASCII, Bangla and all mixtures is lexed and compared bit for bit with the nearest double of its exact rational value; random literals up to 400+1100 digits including exact midpoints between adjacent doubles and their neighbours, subnormals and the overflow threshold; a sample is printed through the real interpreter and read back. Exploration: exhaustive within the bounds, sampled beyond.",
+  note="Trusted: math/big (Rat.Float64 rounding), strconv.ParseFloat only for reading printed numerals back, Go float formatting is not asserted beyond read-back.",
+  ref="4 C10"),
  "C09": dict(
   technique="exhaustive small-scope enumeration + rapid random texts, differential against a reference maximal-munch lexer plus directly stated token-list invariants",
   text="Every string of <=4 (quick) / <=5 (thorough) characters over an alphabet holding every operator character, both digit scripts, letters, marks, quotes, comment characters, blanks and stray characters; every Unicode scalar value alone and embedded; every concatenation of <=3/<=4 lexical fragments; plus random long texts. Each is lexed by the real scanner and compared token by token (type, lexeme, literal, line) and diagnostic by diagnostic with an independent reference lexer, and the partition/line/keyword/string-value invariants are checked directly. Exploration: exhaustive inside the stated bounds, sampled beyond.",
